@@ -32,11 +32,21 @@ package starlarkstruct
 //@   prop C04
 //@   ensures sum_starts_unfrozen: result0 != nil ==> typeis(result0, *Struct) && !as(result0, *Struct).frozen && freshobj(as(result0, *Struct))
 // struct comparison takes part in the recursion of starlark.CompareDepth (see there)
+//@ func Struct.len
+//@   pure
+//@   ensures result == len(s.entries)
 //@ func structsEqual
 //@   prop C11
 //@   requires depth >= 1
 //@   decreases depth, 1
+//@   ensures different_field_counts_are_unequal: len(x.entries) != len(y.entries) ==> result0 == false && result1 == nil
+//@   ensures equal_only_with_same_names: result0 ==> len(x.entries) == len(y.entries)
 
 // ---- determinism and thread-compatibility (C03, C05): no function of the package writes a
 // package-level variable at run time (what one execution left there another would read)
 //@ globals_readonly [C03,C05] none
+
+// ---- determinism (C03): attribute listings do not depend on Go map order
+//@ func Module.AttrNames
+//@   prop C03
+//@   ensures sorted(result)
